@@ -152,3 +152,59 @@ def ss_tcp_stream(legacy, key_arr, N, direction, K, name, request_salt=None):
         s.payloads.append(var)
     ss_chunks(kid, K, 2, s, name + '_P')
     return s
+
+
+# --------------------------------------------------------------------------- VMess AEAD body (V2Fly "VMess AEAD" data section)
+def shake_draw(k):
+    """k-th 16-bit big-endian draw from SHAKE128(body IV): shared by sender and receiver (deterministic function of the IV)"""
+    return z3.BitVec('shake%d' % k, 16)
+
+
+def vmess_nonce(count, iv_arr, iv_off=None):
+    """AEAD nonce of chunk `count`: big-endian 16-bit counter followed by bytes 2..12 of the body IV (as the little-endian
+    concatenation vf.ideal uses for nonces)"""
+    o = bv64(0) if iv_off is None else iv_off
+    bs = [z3.Select(iv_arr, o + bv64(i)) for i in reversed(range(2, 12))] + [bvv(count & 0xff, 8), bvv(count >> 8, 8)]
+    return z3.Concat(*bs)
+
+
+def vmess_body_kid(security, key_arr):
+    kb = ideal.bits(key_arr, bv64(0), 16)
+    return ('vmess-chacha', (kb,)) if security == 'Chacha20Poly1305' else ('raw', (kb,))
+
+
+def vmess_len_kid(security, key_arr):
+    kb = ideal.bits(key_arr, bv64(0), 16)
+    return ('vmess-chacha(kdf16|auth_len)', (kb,)) if security == 'Chacha20Poly1305' else ('kdf16|auth_len', (kb,))
+
+
+def vmess_body_stream(security, chunk, padding, body_key, body_iv, len_key, len_iv, K, name, stream=None, hi=0x3000):
+    """K chunks of the data section.  chunk in Plain|Shake|Auth (no masking / ChunkMasking / AuthenticatedLength), padding in
+    Empty|Shake (GlobalPadding).  Per chunk: [size field][AEAD(payload)][padding]; size = len(payload) + 16 + padding;
+    with GlobalPadding the padding length is the next SHAKE draw mod 64, drawn before the size mask."""
+    s = stream or Stream(name + '_wire')
+    kid = vmess_body_kid(security, body_key)
+    lkid = vmess_len_kid(security, len_key)
+    draw = 0
+    for j in range(K):
+        pl, cs = sym_payload('%s%d' % (name, j), 1, hi)
+        s.constraints += cs
+        pad = bv64(0)
+        if padding == 'Shake':
+            pad = z3.ZeroExt(48, z3.URem(shake_draw(draw), bvv(64, 16)))
+            draw += 1
+        size = pl[2] + bv64(16) + pad
+        if chunk == 'Plain':
+            s.raw_bytes([z3.Extract(15, 8, size), z3.Extract(7, 0, size)])
+        elif chunk == 'Shake':
+            masked = z3.Extract(15, 0, size) ^ shake_draw(draw)
+            draw += 1
+            s.raw_bytes([z3.Extract(15, 8, masked), z3.Extract(7, 0, masked)])
+        else:
+            s.seal(lkid, vmess_nonce(j, len_iv), (be16(None, size - bv64(16)), bv64(0), bv64(2)), label='%s:len%d' % (name, j))
+        s.seal(kid, vmess_nonce(j, body_iv), pl, label='%s:payload%d' % (name, j))
+        s.payloads.append(pl)
+        if padding == 'Shake':
+            s.raw(pad)
+    s.draws = draw
+    return s
